@@ -1926,8 +1926,8 @@ class Processor:
                         prefix="Processor::_get_nodes_by_traversal:  ",
                         data=ele)
                     yield NodeCoords(
-                        ele, parent, ele, next_translated_path, ancestry,
-                        pathseg)
+                        ele, data, ele, next_translated_path,
+                        ancestry + [(data, ele)], pathseg)
             else:
                 self.logger.debug(
                     "Yielding unfiltered Scalar value:",
@@ -2083,7 +2083,8 @@ class Processor:
                     "Yielding set element:",
                     prefix=dbg_prefix, data=ele)
                 yield NodeCoords(
-                    ele, parent, ele, next_translated_path, ancestry, pathseg)
+                    ele, data, ele, next_translated_path,
+                    ancestry + [(data, ele)], pathseg)
             return
 
         self.logger.debug(
